@@ -187,7 +187,7 @@ fn one_hash(op: u16, code: ErrorCode, kind: u8) {
         Ok(c) => {
             assert!(want_err.is_none(), "accepted although the rules reject");
             unsafe {
-                P_N1 = args.arg[0];
+                crate::stubs::G.p_n1 = args.arg[0];
                 assert!(cond_same(&c, kind), "decoded condition carries the argument node");
             }
             std::mem::forget(c);
@@ -244,7 +244,7 @@ fn one_msg(op: u16, code: ErrorCode, kind: u8) {
         Ok(c) => {
             assert!(want_err.is_none(), "accepted although the rules reject");
             unsafe {
-                P_N1 = args.arg[0];
+                crate::stubs::G.p_n1 = args.arg[0];
                 assert!(cond_same(&c, kind));
             }
             std::mem::forget(c);
@@ -330,8 +330,8 @@ fn one_int(op: u16, width: usize, code: ErrorCode, kind: u8, on_pos: IntRule, on
         Ok(c) => {
             assert!(want_err.is_none(), "accepted although the rules reject");
             unsafe {
-                P_U64 = val;
-                P_U32 = val as u32;
+                crate::stubs::G.p_u64 = val;
+                crate::stubs::G.p_u32 = val as u32;
                 assert!(cond_same(&c, want_kind), "decoded integer / tautology as the rules prescribe");
             }
             std::mem::forget(c);
@@ -404,8 +404,8 @@ fn agg_sig(op: u16, kind: u8) {
         Ok(c) => {
             assert!(want_err.is_none(), "accepted although the rules reject");
             unsafe {
-                P_N1 = args.arg[0];
-                P_N2 = args.arg[1];
+                crate::stubs::G.p_n1 = args.arg[0];
+                crate::stubs::G.p_n2 = args.arg[1];
                 assert!(cond_same(&c, kind), "key and message nodes, under the right kind");
             }
             std::mem::forget(c);
@@ -521,9 +521,9 @@ fn create_coin_args<const LA: usize>() {
                 _ => 0,
             };
             unsafe {
-                P_N1 = ph;
-                P_U64 = v;
-                P_N2 = want_hint;
+                crate::stubs::G.p_n1 = ph;
+                crate::stubs::G.p_u64 = v;
+                crate::stubs::G.p_n2 = want_hint;
                 assert!(cond_same(&c, K_CREATE_COIN), "puzzle hash node, amount and hint as the rules derive");
             }
             std::mem::forget(c);
@@ -596,7 +596,7 @@ harness!(c01_args_softfork, 40, {
         Ok(c) => {
             assert!(want_err.is_none());
             unsafe {
-                P_U64 = cost;
+                crate::stubs::G.p_u64 = cost;
                 assert!(cond_same(&c, K_SOFTFORK), "cost argument scaled by 10000");
             }
             std::mem::forget(c);
@@ -622,7 +622,7 @@ harness!(c01_args_two_byte_opcode, 40, {
     } else {
         let c = r.unwrap();
         unsafe {
-            P_U64 = COST_TABLE[(op & 0xff) as usize];
+            crate::stubs::G.p_u64 = COST_TABLE[(op & 0xff) as usize];
             assert!(cond_same(&c, K_SOFTFORK), "2-byte opcode: cost from the table, arguments ignored");
         }
         std::mem::forget(c);
